@@ -16,15 +16,18 @@ pair swap (clusters renamed so that the order flips) swaps only the direction, o
 of the worker count and of the memory budget; the same soundness / completeness for the
 p-value-mask route.
 
-Known findings surface here as failures of the clause `run completes`:
+Defects this module found / replays (clause `run completes`), FIXED in /repo since:
   D-5  `_merge_sparse_by_pair_files` / `_merge_masks`: create_dataset(chunks=(0,)) when there is
        no up- (or no down-) marker / no mask entry at all.
   D-6  p-mask route: `_get_validity_mask` IndexError when n_valid > n_genes.
-  1-pair chunk (new): p-mask route: `_p_values_worker` / `_find_markers_from_p_mask_worker` reject
-       a chunk that holds a single pair (np.unique(np.diff([i])) is empty) - e.g. a 2-leaf taxonomy.
-and of the completeness clause tagged [zero variance in BOTH clusters]: the package turns the
-NaN CDF of the +-inf Welch statistic (nu = 0) into p = 1, so a perfectly separating constant gene
-is never recorded (scipy's Welch gives p = 0).
+  N-1  p-mask route: `_p_values_worker` / `_find_markers_from_p_mask_worker` rejected a chunk that
+       holds a single pair (np.unique(np.diff([i])) is empty) - e.g. a 2-leaf taxonomy.
+Open findings (tagged in the clause text so that known_findings.json can match them):
+  N-2  [zero variance in BOTH clusters]: the package turns the NaN CDF of the +-inf Welch statistic
+       (nu = 0) into p = 1, so a perfectly separating constant gene is never recorded (scipy: p = 0).
+  S-4  a gene less than 1e-5 below a floor is recorded when the strict threshold is within 1e-5 of
+       that floor (special case `s4`; random cases never put a threshold that close to its floor).
+  S-7  one-leaf taxonomy: UnboundLocalError (`del this_cluster_stats`) (special case `s7`).
 Thresholds within 1e-5 of their floors (finding S-4) are NOT generated here; S-4 is reproduced at
 function level (contract approx_penetrance_test#floors).
 """
@@ -103,6 +106,27 @@ def make_case(seed):
     return dict(seed=seed, leaves=leaves, classes=classes, cells=cells, genes=genes, th=th,
                 exact=rng.random() < 0.35, n_valid=(30 if rng.random() < 0.15 else rng.choice([1, min(2, n_genes), n_genes])), gene_list=gene_list,
                 anchored=anchored)
+
+
+def make_special(kind):
+    """deterministic witnesses of the open findings S-4 and S-7"""
+    if kind == 's7':
+        cells = {'c0': np.array([[1.0, 2.0], [1.5, 2.5]])}
+        return dict(seed='s7', leaves=['c0'], classes={'A': ['c0']}, cells=cells, genes=['g0', 'g1'],
+                    th=dict(p_th=0.01, q1_th=0.5, q1_min_th=0.1, qdiff_th=0.7, qdiff_min_th=0.1,
+                            log2_fold_th=1.0, log2_fold_min_th=0.8),
+                    exact=False, n_valid=30, gene_list=None, anchored=False)
+    # s4: |difference of means| = 0.499995, floor 0.5, strict threshold 0.500001; penetrance 0 vs 1
+    n = 20
+    wig = np.array([(-1.0e-4 if i % 2 else 1.0e-4) for i in range(n)])
+    lo = np.stack([0.9 + wig, 0.2 + wig], axis=1)
+    hi = np.stack([1.399995 + wig, 0.2 - wig], axis=1)
+    return dict(seed='s4', leaves=['c0', 'c1'], classes={'A': ['c0'], 'B': ['c1']},
+                cells={'c0': lo, 'c1': hi}, genes=['g0', 'g1'],
+                th=dict(p_th=0.01, q1_th=0.5, q1_min_th=0.1, qdiff_th=0.7, qdiff_min_th=0.1,
+                        log2_fold_th=0.500001, log2_fold_min_th=0.5),
+                # n_valid = 1: the shortcut "enough absolutely valid genes" is the branch that ignores the floors
+                exact=False, n_valid=1, gene_list=None, anchored=False)
 
 
 def tree_data(case, rename=None):
@@ -318,7 +342,10 @@ def check_against_reference(case, mk, fails, route, exact, inv=None):
                 if not r['p_adj'] < th['p_th'] + TOL:
                     fails.append((f'{route}: marker only if the Holm-corrected Welch p-value is below p_th', where))
                 if not floors:
-                    fails.append((f'{route}: marker only if on or above every penetrance / fold floor', where))
+                    deficit = max(th['q1_min_th'] - r['q1'], th['qdiff_min_th'] - r['qdiff'],
+                                  th['log2_fold_min_th'] - r['fold'])
+                    tag = ' [S-4: less than 1e-5 below the floor]' if deficit < 1.0e-5 else ''
+                    fails.append((f'{route}: marker only if on or above every penetrance / fold floor' + tag, where))
                 if not in_list:
                     fails.append((f'{route}: marker only if it belongs to the gene list', where))
                 if exact and not strict:
@@ -380,14 +407,18 @@ def diagnose_pmask_crash(case, text):
 
 def one_case(seed):
     """returns dict(key, failures=[(clause, observed)], crashed=[(clause, text)])"""
-    case = make_case(seed)
+    case = make_special(seed) if isinstance(seed, str) else make_case(seed)
     fails, crashed = [], []
     with scratch('verif_c11_') as wd, quiet(), no_stderr():
         base = None
         try:
             base = run_find(case, wd, 'w1', n_processors=1)
         except BaseException as e:    # noqa
-            crashed.append(('markers route: run completes (1 worker)', f"{type(e).__name__}: {e}"))
+            tag = ' on a one-leaf taxonomy [S-7]' if len(case['leaves']) == 1 else ''
+            crashed.append((f'markers route: run completes (1 worker){tag}', f"{type(e).__name__}: {e}"))
+            if tag:
+                return dict(key=describe(case), failures=fails, crashed=crashed, n_markers=0,
+                            completed=False, p_completed=False)
         if base is not None:
             try:
                 check_against_reference(case, base, fails, 'markers route', case['exact'])
@@ -484,7 +515,7 @@ def run(tier='quick', seed=0, jobs=1):
                   '<= 4 leaves, <= 6 genes, cluster sizes 1..8, zero-variance genes, ties, gene list, '
                   '1/2/3 workers, 2 memory budgets; thresholds not within 1e-5 of their floors',
                   CLAUSES)
-    seeds = [seed * 100003 + i for i in range(n)]
+    seeds = ['s4', 's7'] + [seed * 100003 + i for i in range(n)]
     for (st, res), s in zip(parallel_map(one_case, seeds, jobs=min(jobs, 4)), seeds):
         row['cases'] += 1
         if st != 'ok':
